@@ -19,7 +19,7 @@ RULE = (
 )
 ASSUMPTIONS = ["alphabets of DESIGN.md section 4", "MWEA is held to the size clause only (it has no elite)"]
 EXPLANATION = "state = canonical tree census (RUN) / (operator, population, answer vector, produced points) (OP)"
-ELITIST = {"SEA", "SEAX", "GA", "SEAA", "DE", "DEd", "SHADE", "SHADE2", "GA_p", "SEAX_p", "SEA_p"}
+ELITIST = {"SEA", "SEAX", "GA", "SEAA", "DE", "DEd", "SHADE", "SHADE2", "GA_p", "SEAX_p", "SEA_p", "UEAm", "UEA3", "UEAi"}
 ONE_TO_ONE = {"DE", "DEd", "SHADE", "SHADE2"}
 
 
@@ -117,6 +117,13 @@ def units(tier, seed):
         for mx in (False, True):
             k += 1
             descs.append(dict(engines=list(eng), gens=3, obj=("nanhole", "nanhalf")[k % 2], maximize=mx, Mh=3, seed=s + k % 3, kelites=1 + k % 2, sprout={"kind": "simple", "L": 2}))
+    # user-assembled engines (BaseSEA subclasses): no mating selection, three offspring per parent, random immigrants
+    for eng in [("UEAm",), ("UEA3",), ("UEAi",), ("UEAm", "DE"), ("SEA", "UEA3"), ("UEA3", "UEAm"), ("LHS", "UEAi"), ("UEAi", "UEA3", "UEAm")]:
+        for mx in (False, True):
+            for pop in (6, 5):
+                k += 1
+                descs.append(dict(engines=list(eng), gens=1 + k % 3, obj=objs[k % 5], maximize=mx, Mh=3, seed=s + k % 2, kelites=1 + k % 3, pop=pop, pmut=(1.0, 0.5)[k % 2],
+                                  sprout={"kind": ("simple", "nbc")[k % 2], "L": 2}))
     us = [{"kind": "run", "descs": c} for c in chunks(descs, 30)]
     ops = []
     for op in ENGINE_OPS:
